@@ -48,6 +48,10 @@ func isFunc(info *types.Info, c *ast.CallExpr, pkg, name string) bool {
 
 // keepsClass reports whether expression e (a returned / stored error expression) carries the
 // class of the error variable o. mentions=false means e does not mention o at all.
+// classThroughHook is installed by the loaded program: it decides whether a call hands an argument accepted by
+// match to a module function that returns it class-preserved (wrapped with %w or unchanged) whenever it is non-nil.
+var classThroughHook func(info *types.Info, c *ast.CallExpr, match func(ast.Expr) bool) (bool, string)
+
 func keepsClass(info *types.Info, e ast.Expr, o types.Object) (keeps bool, mentions bool, why string) {
 	e = ast.Unparen(e)
 	if !usesObj(info, e, o) {
@@ -90,6 +94,12 @@ func keepsClass(info *types.Info, e ast.Expr, o types.Object) (keeps bool, menti
 				k, _, w := keepsClass(info, a, o)
 				return k, true, "joined: " + w
 			}
+		}
+	}
+	// a module helper that keeps the class of that parameter on every path (summary of its own error flow)
+	if classThroughHook != nil {
+		if ok, why := classThroughHook(info, c, func(a ast.Expr) bool { return objOf(info, a) == o }); ok {
+			return true, true, why
 		}
 	}
 	// a product wrapper/adapter call taking the error: accepted when listed by the rule (caller decides)
